@@ -1371,6 +1371,11 @@ if [[ " $* " == *" fast-import "* ]] && { [ "$MODE" = cutimport ] || [ "$MODE" =
   if [ "$MODE" = cutimport ]; then exec "$R" "$@" < <(python3 "$(dirname "$0")/relay.py" "$FRRS_SHIM_CUT")
   else exec "$R" "$@" < <(python3 "$(dirname "$0")/relay.py" "$FRRS_SHIM_CUT" poison); fi
 fi
+if [[ " $* " == *" fast-import "* ]] && [ "$MODE" = sigimport ]; then
+  cat > /dev/null                                   # the importer takes everything it is sent, then dies from a signal
+  [ -n "$FRRS_SHIM_LOG" ] && echo "FAULT fast-import killed by signal ${FRRS_SHIM_SIG:-KILL} after reading its input" >> "$FRRS_SHIM_LOG"
+  kill -${FRRS_SHIM_SIG:-KILL} $$
+fi
 if [[ " $* " == *" bundle "* ]] && [ "$MODE" = killbundle ]; then
   [ -n "$FRRS_SHIM_LOG" ] && echo "FAULT bundle killed by a signal" >> "$FRRS_SHIM_LOG"
   kill -9 $$                                        # the backup command dies from a signal (no exit code)
@@ -1711,6 +1716,66 @@ def sweep_case(case):
 
 
 # ------------------------------------------------------------------------------------------------
+# C10: an auxiliary file that is missing, unreadable or invalid, given next to other, valid options
+
+AUX_VALID = {
+    '--replace-message': b'tip==>TIP\nregex:c[0-9]+==>C\n', '--replace-text': b'line==>LINE\nglob:fil?==>x\n',
+    '--strip-blobs-with-ids': b'# ids\n' + b'1' * 40 + b'\n', '--mailmap': b'New Name <new@e> <t@e>\n',
+    '--author-rewrite': b'T==>Tee\n', '--committer-rewrite': b'T==>Tee\n', '--email-rewrite': b't@e==>tee@e\n',
+}
+# what the tool is documented (and, unchanged, observed) to refuse per option: a missing file and a directory for all of
+# them; bytes that are not UTF-8 where the file is read as text; a pattern that does not compile; an id that is no object id
+AUX_INVALID = {
+    '--replace-message': ['missing', 'directory', 'badregex'], '--replace-text': ['missing', 'directory', 'badregex'],
+    '--strip-blobs-with-ids': ['missing', 'directory', 'binary', 'badid'], '--mailmap': ['missing', 'directory', 'binary'],
+    '--author-rewrite': ['missing', 'directory', 'binary'], '--committer-rewrite': ['missing', 'directory', 'binary'],
+    '--email-rewrite': ['missing', 'directory', 'binary'],
+}
+
+
+def _auxfile_fault(res, count, rnd, root, repo):
+    aux = os.path.join(root, 'auxfault'); os.makedirs(aux, exist_ok=True)
+    bad_opt = rnd.choice(sorted(AUX_INVALID))
+    kind = rnd.choice(AUX_INVALID[bad_opt])
+    bad = os.path.join(aux, 'bad-file')
+    if kind == 'directory': os.makedirs(bad)
+    elif kind == 'binary': open(bad, 'wb').write(b'\xff\xfe\x80bad==>x\n<\xe9@e> <t@e>\n')
+    elif kind == 'badregex': open(bad, 'wb').write(b'fine==>ok\nregex:(unclosed==>x\n')
+    elif kind == 'badid': open(bad, 'wb').write(b'1' * 40 + b'\nnot-an-object-id\n')
+    # one to three other, valid auxiliary files (a valid --mailmap among them in half of the cases) and a path option
+    others = [o for o in sorted(AUX_VALID) if o != bad_opt]
+    rnd.shuffle(others)
+    chosen = others[:rnd.randrange(0, 4)]
+    if bad_opt != '--mailmap' and '--mailmap' not in chosen and rnd.random() < 0.5:
+        chosen.append('--mailmap')
+    args = []
+    for i, o in enumerate(chosen):
+        f = os.path.join(aux, f'valid-{i}'); open(f, 'wb').write(AUX_VALID[o]); args += [o, f]
+    pos = rnd.randrange(0, len(chosen) + 1) * 2
+    args[pos:pos] = [bad_opt, bad]
+    args += rnd.choice([[], ['--path-rename', 'd2/:moved/'], ['--tag-rename', 'v:rel-'], ['--path', 'd1/']])
+    before = dict(refs=refs(repo), head=head_of(repo))
+    p = subprocess.run([FR, '--force'] + args, cwd=repo, stdout=subprocess.PIPE, stderr=subprocess.PIPE, env=GIT_ENV, timeout=180)
+    after = dict(refs=refs(repo), head=head_of(repo))
+    count('fault-auxfile'); count('faulted-runs'); count('auxfile-' + kind); count('auxfile-next-to-%d-valid' % len(chosen))
+    shown = [a if not a.startswith(aux) else os.path.basename(a) for a in args]
+    what = f'{bad_opt} given a file that is {kind} (options {shown})'
+    if p.returncode == 0:
+        res['failures'].append(('C10', f'{what}: the tool exited 0'))
+    if after != before:
+        res['failures'].append(('C10', f'{what}: refs or HEAD changed'))
+    # control: the same command line with the bad file replaced by a valid one must succeed (the refusal is about that file)
+    open(os.path.join(aux, 'good-file'), 'wb').write(AUX_VALID[bad_opt])
+    args2 = [os.path.join(aux, 'good-file') if a == bad else a for a in args]
+    p2 = subprocess.run([FR, '--force'] + args2, cwd=repo, stdout=subprocess.PIPE, stderr=subprocess.PIPE, env=GIT_ENV, timeout=180)
+    if p2.returncode != 0:
+        res['failures'].append(('C10', f'control for {what}: with a valid file in its place the run fails too: {p2.stderr.decode("utf-8", "replace")[-200:]}'))
+    else:
+        count('auxfile-control-accepted')
+    return res
+
+
+# ------------------------------------------------------------------------------------------------
 # C10: faults injected into the real pipeline (the importer dies / rejects the stream / the exporter's output ends early)
 
 def fault_case(case):
@@ -1730,13 +1795,19 @@ def fault_case(case):
         # refs that fast-export emits as `reset <ref>` / `from :N` (a second name on an exported commit), tags of both kinds
         git(repo, 'branch', 'release', 'b1'); git(repo, 'branch', 'b0-copy', 'b0~3')
         git(repo, 'tag', 'lw', 'b2~1'); git(repo, 'tag', '-a', '-m', 'annotated', 'v1', 'b1~2')
-        if k % 2 == 1:
+        mode = ['cutimport', 'poisonimport', 'cutexport'][k % 3]
+        if k % 10 == 9:
+            mode = 'sigimport'          # the importer reads everything and is then killed by a signal (no exit code)
+        elif k % 10 == 4:
+            mode = 'auxfile'            # an invalid auxiliary file next to valid options
+        if k % 2 == 1 and mode != 'sigimport':
             rc0, _, err0, _ = run_tool(repo, ['--force', '--path-rename', 'd1/:first/'])
             if rc0 != 0:
                 res['error'] = 'preparatory run failed: ' + err0.decode('utf-8', 'replace')[-200:]
                 return res
             count('earlier-run-left-its-maps')
-        mode = ['cutimport', 'poisonimport', 'cutexport'][k % 3]
+        if mode == 'auxfile':
+            return _auxfile_fault(res, count, rnd, root, repo)
         opts = [[], ['--path-rename', 'd2/:moved/'], ['--branch-rename', 'b:br-'], ['--tag-rename', 'v:rel-'], ['--path', 'd3/', '--invert-paths'],
                 ['--branch-rename', 'rel:REL', '--path-rename', 'd1/:x/']][rnd.randrange(6)]
         total = len(export(repo))
@@ -1761,6 +1832,7 @@ def fault_case(case):
         env = perturbed_env(root, k, mode)
         env['FRRS_SHIM_CUT'] = str(cut)
         env['FRRS_SHIM_RC'] = str(rnd.choice([1, 1, 0, 141]))
+        env['FRRS_SHIM_SIG'] = rnd.choice(['KILL', 'TERM', 'XFSZ', 'SEGV'])
         before = dict(refs=refs(repo), head=head_of(repo))
         try:
             p = subprocess.run([FR, '--force'] + opts, cwd=repo, stdout=subprocess.PIPE, stderr=subprocess.PIPE, env=env, timeout=180)
